@@ -27,6 +27,89 @@ import paho.mqtt.client as pc  # noqa: E402
 assert os.path.realpath(pc.__file__).startswith(os.path.realpath(REPO_SRC)), pc.__file__
 
 
+import threading as _real_threading
+
+
+class SelfDeadlock(BaseException):
+    """a thread blocking-acquired a non-reentrant lock it already owns (would hang forever)."""
+
+
+class DLock:
+    """threading.Lock replacement that turns a self-deadlock into an exception and records ownership."""
+
+    def __init__(self):
+        self._l = _real_threading.Lock()
+        self.owner = None
+        self.name = "?"
+
+    def acquire(self, blocking=True, timeout=-1):
+        me = _real_threading.get_ident()
+        if blocking and self.owner == me:
+            raise SelfDeadlock(self.name)
+        ok = self._l.acquire(blocking, timeout) if blocking else self._l.acquire(False)
+        if ok:
+            self.owner = me
+        return ok
+
+    def release(self):
+        self.owner = None
+        self._l.release()
+
+    def locked(self):
+        return self._l.locked()
+
+    def held_by_me(self):
+        return self.owner == _real_threading.get_ident()
+
+    def __enter__(self):
+        self.acquire()
+        return self
+
+    def __exit__(self, *a):
+        self.release()
+
+
+class DRLock:
+    def __init__(self):
+        self._l = _real_threading.RLock()
+        self.count = 0
+        self.owner = None
+        self.name = "?"
+
+    def acquire(self, blocking=True, timeout=-1):
+        ok = self._l.acquire(blocking, timeout) if blocking else self._l.acquire(False)
+        if ok:
+            self.count += 1
+            self.owner = _real_threading.get_ident()
+        return ok
+
+    def release(self):
+        self.count -= 1
+        if self.count == 0:
+            self.owner = None
+        self._l.release()
+
+    def held_by_me(self):
+        return self.owner == _real_threading.get_ident() and self.count > 0
+
+    def __enter__(self):
+        self.acquire()
+        return self
+
+    def __exit__(self, *a):
+        self.release()
+
+
+def name_locks(client):
+    for k, v in vars(client).items():
+        if isinstance(v, (DLock, DRLock)):
+            v.name = k
+
+
+def held_locks(client):
+    return sorted(k for k, v in vars(client).items() if isinstance(v, (DLock, DRLock)) and v.held_by_me())
+
+
 class VClock:
     def __init__(self):
         self.ms = 1_000_000  # start away from 0: the client uses 0 as "no ping outstanding"
@@ -140,6 +223,8 @@ class FakeSocket:
         if not self.closed:
             self.closed = True
             self.world.log.append(("sockclose", self.conn))
+            if self.world.close_hook:
+                self.world.close_hook(self.conn)
 
     def setblocking(self, flag) -> None:
         self.blocking = bool(flag)
@@ -213,6 +298,7 @@ class World:
         self.select_hook = None    # called when select would block: may feed data / stop
         self.sleep_hook = None
         self.tx_hook = None
+        self.close_hook = None
         self.select_calls = 0
         self.max_select = 100000
 
@@ -244,6 +330,14 @@ class World:
         pc.socket = fsock
         pc._socketpair_compat = self._socketpair
 
+        fthr = types.SimpleNamespace()
+        for name in dir(_real_threading):
+            if not name.startswith("__"):
+                setattr(fthr, name, getattr(_real_threading, name))
+        fthr.Lock = DLock
+        fthr.RLock = DRLock
+        pc.threading = fthr
+
     @staticmethod
     def uninstall() -> None:
         import select as _sel
@@ -252,6 +346,7 @@ class World:
         pc.time_func = _time.monotonic
         pc.select = _sel
         pc.socket = _real_socket
+        pc.threading = _real_threading
 
     # ---- fakes ----
     def _sleep(self, secs) -> None:
